@@ -11,3 +11,4 @@ INVARIANT InvertTwice
 INVARIANT InverseLaw
 INVARIANT MirrorLaw
 INVARIANT NoMirrorLaw
+INVARIANT UnrolledAgrees
